@@ -9,6 +9,29 @@ From AP.Proofs Require Import NlvP LowerP Utf8P FoldP UrlUP.
 
 Definition byte_rune (b : byte) : N := if is_asciib b then byteN b else rune_error.
 
+(* Go's decoding (every invalid byte is U+FFFD): the instances of the generic lemmas of Utf8P.v *)
+Lemma runes_cons p0 r : runes (p0 :: r) =
+  match lead_of p0 with
+  | LAscii => byteN p0 :: runes r
+  | LBad => rune_error :: runes r
+  | L2 => match r with
+          | b1 :: r1 => if is_cont b1 then rune2 p0 b1 :: runes r1 else rune_error :: runes r
+          | _ => rune_error :: runes r
+          end
+  | L3 lo hi => match r with
+          | b1 :: b2 :: r2 => if is_cont b1 && in_rng lo hi b1 && is_cont b2 then rune3 p0 b1 b2 :: runes r2 else rune_error :: runes r
+          | _ => rune_error :: runes r
+          end
+  | L4 lo hi => match r with
+          | b1 :: b2 :: b3 :: r3 => if is_cont b1 && in_rng lo hi b1 && is_cont b2 && is_cont b3
+                                    then rune4 p0 b1 b2 b3 :: runes r3 else rune_error :: runes r
+          | _ => rune_error :: runes r
+          end
+  end.
+Proof. reflexivity. Qed.
+Lemma runes_ascii s : forallb is_asciib s = true -> runes s = map byteN s.
+Proof. apply (Utf8P.runes_ascii lax_err). Qed.
+
 Lemma runes_length_n n : forall s, length s <= n ->
   length (runes s) <= length s /\ (length (runes s) = length s -> runes s = map byte_rune s).
 Proof.
